@@ -1,4 +1,5 @@
 import Rain.Lsm
+import Rain.Generated.Constants
 /-
 Model of how RainDB chooses the input files of a table compaction:
 `compaction/manifest.rs` (`CompactionManifest::finalize_compaction_inputs`, `add_boundary_inputs`,
@@ -175,7 +176,7 @@ def setupOtherInputs (size : Nat → Nat) (levels : List (List File)) (level : N
     else
       let exp0 := addBoundary lv (overlapping lv (level == 0) (some all.1.1) (some all.2.1))
       let hasExpanded : Bool := decide (in0.length < exp0.length)
-      let underLimit : Bool := decide (sumSizes size in1 + sumSizes size exp0 < 25 * maxFileSize)
+      let underLimit : Bool := decide (sumSizes size in1 + sumSizes size exp0 < Rain.Gen.EXPANDED_COMPACTION_MULTIPLIER * maxFileSize)
       if hasExpanded && underLimit then
         match keyRange exp0 with
         | none => (in0, in1)
